@@ -208,6 +208,23 @@ func NullConstScalar(t ScalarType) ConstScalar {
   return NewConstScalar(t, 0.0)
 }
 
+// Convert a to type t. The value is read through the getter of the target
+// storage type, i.e. it is converted directly and not via float64.
+func convertConstScalar(t ScalarType, a ConstScalar) ConstScalar {
+  switch t {
+  case ConstInt8Type   : return ConstInt8   (a.GetInt8   ())
+  case ConstInt16Type  : return ConstInt16  (a.GetInt16  ())
+  case ConstInt32Type  : return ConstInt32  (a.GetInt32  ())
+  case ConstInt64Type  : return ConstInt64  (a.GetInt64  ())
+  case ConstIntType    : return ConstInt    (a.GetInt    ())
+  case ConstFloat32Type: return ConstFloat32(a.GetFloat32())
+  case ConstFloat64Type: return ConstFloat64(a.GetFloat64())
+  }
+  r := NullScalar(t)
+  r.Set(a)
+  return r
+}
+
 /* magic scalar constructors
  * -------------------------------------------------------------------------- */
 
